@@ -41,26 +41,26 @@ structure ProjDecoder where
   layout : ChannelLayout
   deriving DecidableEq, Repr
 
-/-- `opus_projection_decoder_init` (src/opus_projection_decoder.c:128-195).  `size` is the
-    `demixing_matrix_size` argument, `dm` the bytes at `demixing_matrix`.  The arguments are not validated
-    before `ALLOC(buf, nb_input_streams*channels, opus_int16)`: a cell count `≤ 0` that passes the size
-    comparison makes the C code declare a zero- or negative-length array (undefined; UBSan vla-bound):
-    `.abort`. -/
+/-- `opus_projection_decoder_init` (src/opus_projection_decoder.c:146-207, as repaired by `fix:` commit
+    31272f65: the argument ranges are checked first, so the scratch array `buf[nb_input_streams*channels]`
+    always has a positive length).  `size` is the `demixing_matrix_size` argument, `dm` the bytes at
+    `demixing_matrix` (`.oob` when the caller's buffer is shorter than the size it announces). -/
 def decoderInit (innerOk : Bool) (channels streams coupled : Int) (dm : Bytes) (size : Int) : Res ProjDecoder :=
-  let nin := streams + coupled
-  if nin * channels * 2 ≠ size then .err .badArg
-  else if nin * channels ≤ 0 then .abort
-  else match importCells dm (nin * channels).toNat with
-    | .ok cells =>
-      if !matrixSizeNonzero channels nin then .err .badArg
-      else match Layout.decoderInit innerOk channels streams coupled (List.range channels.toNat) with
-        | .ok l => .ok { matrix := { rows := channels.toNat, cols := nin.toNat, gain := 0, data := cells }, layout := l }
-        | .err e => .err e
-        | .oob => .oob
-        | .abort => .abort
-    | .err e => .err e
-    | .oob => .oob
-    | .abort => .abort
+  if decArgsBad channels streams coupled then .err .badArg
+  else
+    let nin := streams + coupled
+    if nin * channels * 2 ≠ size then .err .badArg
+    else match importCells dm (nin * channels).toNat with
+      | .ok cells =>
+        if !matrixSizeNonzero channels nin then .err .badArg
+        else match Layout.decoderInit innerOk channels streams coupled (List.range channels.toNat) with
+          | .ok l => .ok { matrix := { rows := channels.toNat, cols := nin.toNat, gain := 0, data := cells }, layout := l }
+          | .err e => .err e
+          | .oob => .oob
+          | .abort => .abort
+      | .err e => .err e
+      | .oob => .oob
+      | .abort => .abort
 
 /-- `opus_projection_decoder_get_size(...) != 0` (src/opus_projection_decoder.c:128-143;
     `opus_multistream_decoder_get_size` is 0 for `streams<1`, `coupled>streams`, `coupled<0`). -/
